@@ -232,6 +232,10 @@ func rootNode(d Driver, w *World) *Node {
 func Explore(mk func() Driver, o Options, kf *Findings) *Stats {
 	st := &Stats{Outcomes: map[string]int{}, PerOpOK: map[string]int{}, PerOpTried: map[string]int{}, Known: map[string]int{}, KnownExample: map[string]*Violation{}}
 	t0 := time.Now()
+	if v := EnvInt("VERIF_DEADLINE_MIN", 0); v > 0 {
+		// a shorter internal deadline for trial runs of a tier (the run still stops at the last completed level and says so)
+		o.Deadline = time.Duration(v) * time.Minute
+	}
 	pool := make([]*worker, o.Workers)
 	var wg sync.WaitGroup
 	var perr any
